@@ -244,6 +244,23 @@ type idxSite struct {
 	facts []fact
 	pos   token.Pos
 	inLoopCond bool
+	fnObj *types.Func
+}
+
+// idxCall: one call of a function of the package, with what is known there.
+type idxCall struct {
+	caller *types.Func
+	args   []lexpr
+	argOK  []bool
+	facts  []fact
+}
+
+// idxFn: what the transfer of an obligation to the callers of a function needs.
+type idxFn struct {
+	params   map[string]int  // integer parameter → position
+	assigned map[string]bool // parameters the body assigns
+	writes   map[string]bool // fields of the scanner the body assigns directly
+	callees  map[*types.Func]bool
 }
 
 // IdxGuard decides rule idx-guard for the scanner package.
@@ -335,8 +352,90 @@ func (a *Analysis) IdxGuard() *report.RuleResult {
 		}
 	}
 	var sites []idxSite
+	finfo := map[*types.Func]*idxFn{}
+	callsTo := map[*types.Func][]idxCall{}
+	calleeOf := func(c *ast.CallExpr) *types.Func {
+		switch f := unparen(c.Fun).(type) {
+		case *ast.SelectorExpr:
+			o, _ := info.Uses[f.Sel].(*types.Func)
+			return o
+		case *ast.Ident:
+			o, _ := info.Uses[f].(*types.Func)
+			return o
+		}
+		return nil
+	}
+	for _, fd := range load.FuncDecls(m.Pkg) {
+		obj, _ := info.Defs[fd.Name].(*types.Func)
+		if obj == nil {
+			continue
+		}
+		fi := &idxFn{params: map[string]int{}, assigned: map[string]bool{}, writes: map[string]bool{}, callees: map[*types.Func]bool{}}
+		i := 0
+		for _, f := range fd.Type.Params.List {
+			for _, nm := range f.Names {
+				fi.params[nm.Name] = i
+				i++
+			}
+			if len(f.Names) == 0 {
+				i++
+			}
+		}
+		note := func(l ast.Expr) {
+			switch y := unparen(l).(type) {
+			case *ast.Ident:
+				if _, ok := fi.params[y.Name]; ok {
+					fi.assigned[y.Name] = true
+				}
+			case *ast.SelectorExpr:
+				fi.writes[y.Sel.Name] = true
+			}
+		}
+		ast.Inspect(fd.Body, func(n ast.Node) bool {
+			switch y := n.(type) {
+			case *ast.AssignStmt:
+				for _, l := range y.Lhs {
+					note(l)
+				}
+			case *ast.IncDecStmt:
+				note(y.X)
+			case *ast.UnaryExpr:
+				if y.Op == token.AND {
+					note(y.X)
+				}
+			case *ast.CallExpr:
+				if o := calleeOf(y); o != nil {
+					fi.callees[o] = true
+				}
+			}
+			return true
+		})
+		finfo[obj] = fi
+	}
+	// mayWrite: fn or a function of the package it calls assigns the scanner field
+	var mayWrite func(fn *types.Func, field string, seen map[*types.Func]bool) bool
+	mayWrite = func(fn *types.Func, field string, seen map[*types.Func]bool) bool {
+		fi := finfo[fn]
+		if fi == nil {
+			return fn.Pkg() == m.Pkg.Types // a function of the package without a body we saw: assume it writes
+		}
+		if seen[fn] {
+			return false
+		}
+		seen[fn] = true
+		if fi.writes[field] {
+			return true
+		}
+		for c := range fi.callees {
+			if mayWrite(c, field, seen) {
+				return true
+			}
+		}
+		return false
+	}
 	for _, fd := range load.FuncDecls(m.Pkg) {
 		fname := fd.Name.Name
+		fnObj, _ := info.Defs[fd.Name].(*types.Func)
 		pr := &prover{info: info, alias: map[string]string{}}
 		var facts []fact
 		facts = append(facts, base...)
@@ -394,17 +493,17 @@ func (a *Analysis) IdxGuard() *report.RuleResult {
 				visitExpr(x.Y, facts, loopCond)
 			case *ast.IndexExpr:
 				if _, ok := isBuf(x.X); ok {
-					sites = append(sites, idxSite{fn: fname, expr: types.ExprString(x), node: x, facts: append([]fact{}, facts...), pos: x.Pos(), inLoopCond: loopCond})
+					sites = append(sites, idxSite{fnObj: fnObj, fn: fname, expr: types.ExprString(x), node: x, facts: append([]fact{}, facts...), pos: x.Pos(), inLoopCond: loopCond})
 				} else if id, ok := unparen(x.X).(*ast.Ident); ok {
 					if lb, ok := locals[id.Name]; ok {
-						sites = append(sites, idxSite{local: lb, fn: fname, expr: types.ExprString(x), node: x, facts: append([]fact{}, facts...), pos: x.Pos()})
+						sites = append(sites, idxSite{fnObj: fnObj, local: lb, fn: fname, expr: types.ExprString(x), node: x, facts: append([]fact{}, facts...), pos: x.Pos()})
 					}
 				}
 				visitExpr(x.X, facts, loopCond)
 				visitExpr(x.Index, facts, loopCond)
 			case *ast.SliceExpr:
 				if _, ok := isBuf(x.X); ok {
-					sites = append(sites, idxSite{fn: fname, expr: types.ExprString(x), node: x, facts: append([]fact{}, facts...), pos: x.Pos()})
+					sites = append(sites, idxSite{fnObj: fnObj, fn: fname, expr: types.ExprString(x), node: x, facts: append([]fact{}, facts...), pos: x.Pos()})
 				}
 				visitExpr(x.Low, facts, loopCond)
 				visitExpr(x.High, facts, loopCond)
@@ -413,6 +512,15 @@ func (a *Analysis) IdxGuard() *report.RuleResult {
 					visitExpr(arg, facts, loopCond)
 				}
 				visitExpr(x.Fun, facts, loopCond)
+				if o := calleeOf(x); o != nil && finfo[o] != nil {
+					c := idxCall{caller: fnObj, facts: append([]fact{}, facts...)}
+					for _, arg := range x.Args {
+						l, ok := pr.lin(arg)
+						c.args = append(c.args, l)
+						c.argOK = append(c.argOK, ok)
+					}
+					callsTo[o] = append(callsTo[o], c)
+				}
 			case *ast.UnaryExpr:
 				visitExpr(x.X, facts, loopCond)
 			case *ast.SelectorExpr:
@@ -684,6 +792,61 @@ func (a *Analysis) IdxGuard() *report.RuleResult {
 		pos   token.Pos
 	}
 	out := map[string]*verdict{}
+	fieldOfTerm := map[string]string{"lex.ts": "ts", "lex.te": "te", "lex.p": "p", "lex.top": "top", "len(lex.data)": "data", "len(lex.stack)": "stack"}
+	// viaCallers: goal >= 0 at a point of fn follows from what every call of fn in
+	// the package establishes for the arguments (parameters the body does not
+	// assign; scanner fields the body does not write).
+	var viaCallers func(fn *types.Func, g lexpr, depth int) bool
+	viaCallers = func(fn *types.Func, g lexpr, depth int) bool {
+		fi := finfo[fn]
+		if fi == nil || depth > 3 || len(callsTo[fn]) == 0 || fn.Exported() {
+			return false
+		}
+		for t := range g.T {
+			if _, isParam := fi.params[t]; isParam {
+				if fi.assigned[t] {
+					return false
+				}
+				continue
+			}
+			if f, ok := fieldOfTerm[t]; ok && !mayWrite(fn, f, map[*types.Func]bool{}) {
+				continue
+			}
+			return false
+		}
+		for _, c := range callsTo[fn] {
+			g2 := lexpr{T: map[string]int{}, K: g.K}
+			for t, cf := range g.T {
+				if i, isParam := fi.params[t]; isParam {
+					if i >= len(c.args) || !c.argOK[i] {
+						return false
+					}
+					for n := 0; n < cf; n++ {
+						g2 = g2.plus(c.args[i], 1)
+					}
+					for n := 0; n > cf; n-- {
+						g2 = g2.plus(c.args[i], -1)
+					}
+				} else {
+					g2 = g2.plus(lexpr{T: map[string]int{t: cf}}, 1)
+				}
+			}
+			facts := append([]fact{}, c.facts...)
+			for t := range g2.T {
+				if strings.HasPrefix(t, "len(") {
+					facts = append(facts, fact{E: lexpr{T: map[string]int{t: 1}}})
+				}
+			}
+			if entails(g2, facts) {
+				continue
+			}
+			if c.caller != nil && viaCallers(c.caller, g2, depth+1) {
+				continue
+			}
+			return false
+		}
+		return true
+	}
 	for _, s := range sites {
 		pr := &prover{info: info, alias: map[string]string{}}
 		var goals []lexpr
@@ -726,11 +889,20 @@ func (a *Analysis) IdxGuard() *report.RuleResult {
 		var failed []string
 		// every length is non-negative
 		sf := append([]fact{}, s.facts...)
+		lens := map[string]bool{}
 		for _, g := range goals {
 			for t := range g.T {
-				if strings.HasPrefix(t, "len(") {
-					sf = append(sf, fact{E: lexpr{T: map[string]int{t: 1}}})
-				}
+				lens[t] = strings.HasPrefix(t, "len(")
+			}
+		}
+		for _, f := range s.facts {
+			for t := range f.E.T {
+				lens[t] = strings.HasPrefix(t, "len(")
+			}
+		}
+		for t, isLen := range lens {
+			if isLen {
+				sf = append(sf, fact{E: lexpr{T: map[string]int{t: 1}}})
 			}
 		}
 		s.facts = sf
@@ -741,7 +913,7 @@ func (a *Analysis) IdxGuard() *report.RuleResult {
 				delete(g2.T, "p")
 				g2.T["lex.p"] += c
 			}
-			if !entails(g2, s.facts) {
+			if !entails(g2, s.facts) && !(s.local == nil && s.fnObj != nil && viaCallers(s.fnObj, g2, 0)) {
 				okAll = false
 				failed = append(failed, descr[gi]+" ("+g2.String()+" >= 0)")
 			}
